@@ -75,8 +75,37 @@ def histories(draw, kind, tier):
     )
     ops = draw(st.lists(op, min_size=6, max_size=40 if tier == "quick" else 60))
     return {"kind": kind, "maxsize": maxsize, "typed": typed,
+            "eq_instances": draw(st.sampled_from([False, False, True])) if kind == "method" else False,
             "ops": [[o[0], o[1]] + ([[list(o[2][0]), [list(p) for p in o[2][1]]]] if len(o) > 2 else [])
                     for o in ops]}
+
+
+class _EqAllResult:
+    def __eq__(self, other):
+        return True
+
+    def __ne__(self, other):
+        return False
+
+    def __hash__(self):
+        return 1
+
+    def __repr__(self):
+        return "<equal to everything>"
+
+
+class _NoEqResult:
+    def __eq__(self, other):
+        raise ValueError("the truth value of a comparison with this result is ambiguous")
+
+    __ne__ = __eq__
+    __hash__ = None
+
+    def __repr__(self):
+        return "<not comparable>"
+
+
+_EQ_ALL, _NO_EQ = _EqAllResult(), _NoEqResult()
 
 
 def result_for(args, kwargs, n):
@@ -89,6 +118,10 @@ def result_for(args, kwargs, n):
         return 0
     if first == "a":
         return ""
+    if first == "1":
+        return _EQ_ALL  # a result that claims to be equal to everything (like mock.ANY)
+    if first == (1, 2):
+        return _NO_EQ   # a result that cannot be compared at all (like an array)
     return ("result", n)
 
 
@@ -177,6 +210,14 @@ def build_targets(case):
             def __bool__(self):
                 return self.tag != "inst1"
 
+            if case.get("eq_instances"):
+                # instances with VALUE equality: equal (one cache key, as for functools) but not the same object
+                def __eq__(self, other):
+                    return type(other) is type(self)
+
+                def __hash__(self):
+                    return 11
+
         class A(Falsy):
             @adeco
             async def m(self, *args, **kwargs):
@@ -230,7 +271,7 @@ def check(case):
     seen_keys = {}
 
     def model_call(inst, args, kwargs):
-        margs = ((("self", inst),) if case["kind"] == "method" else
+        margs = ((("self", inst if not case.get("eq_instances") else 0),) if case["kind"] == "method" else
                  (("cls",),) if case["kind"] == "classmethod" else ()) + args
         try:
             key, hit = model.lookup(margs, kwargs)
@@ -295,7 +336,7 @@ def check(case):
                     sfn.cache_clear()
             elif name == "discard":
                 try:
-                    margs = ((("self", inst),) if case["kind"] == "method" else
+                    margs = ((("self", inst if not case.get("eq_instances") else 0),) if case["kind"] == "method" else
                              (("cls",),) if case["kind"] == "classmethod" else ()) + args
                     before = len(model.cache)
                     try:
